@@ -29,6 +29,8 @@ pub struct Rec {
   pub tick: u64,
   pub vtime: u64,
   pub thread: usize,
+  /// the driver step (see `step()`) during which the notification arrived; 0 where the harness does not count steps
+  pub step: u64,
 }
 
 #[derive(Default)]
@@ -115,6 +117,7 @@ pub fn w<R>(f: impl FnOnce(&mut World) -> R) -> R {
 
 pub fn reset_world() {
   set_deadlock_ctx("");
+  STEP.with(|s| s.set(0));
   DECOUPLED.with(|d| d.set(false));
   OP_KIND.with(|d| d.set([0; 4]));
   hooks_disable();
@@ -241,7 +244,8 @@ impl Probe {
       if !matches!(ev, Ev::Next(_)) {
         p.terminated = true;
       }
-      p.log.push(Rec { ev: ev.clone(), tick, vtime, thread });
+      let step = STEP.with(|s| s.get());
+      p.log.push(Rec { ev: ev.clone(), tick, vtime, thread, step });
       bad
     });
     e::note(format!("p{}<-{}", id, show_ev(&ev)));
@@ -448,6 +452,13 @@ pub fn with_op_kind(kind: u8, f: impl FnOnce()) {
   let mut k = OP_KIND.with(|d| d.get());
   k[cur] = was;
   OP_KIND.with(|d| d.set(k));
+}
+thread_local! {
+  /// counts the driver's actions (a source event, an executor run, a clock move) in harnesses that call `step()`
+  pub static STEP: std::cell::Cell<u64> = std::cell::Cell::new(0);
+}
+pub fn step() {
+  STEP.with(|s| s.set(s.get() + 1));
 }
 pub fn set_deadlock_ctx(s: &str) {
   DEADLOCK_CTX.with(|c| *c.borrow_mut() = s.to_string());
